@@ -44,7 +44,7 @@ func main() {
 
 func famHist(out string) {
 	initShared()
-	nh, steps := 24, 26
+	nh, steps := 36, 26
 	if hutil.Tier() == "thorough" {
 		nh, steps = 400, 45
 	}
@@ -71,7 +71,7 @@ func famHist(out string) {
 		rng := hutil.NewRng(1000 + uint64(i))
 		w := worldFromShared(rng, 5)
 		p := HistParams{Steps: steps - 8 + rng.Intn(16), Wallets: 5, PBadTx: 10, PCorrupt: 10, PFork: 20, PReorg: 12, DumpEvery: 7, Crashes: 2}
-		switch i % 6 {
+		switch i % 9 {
 		case 1:
 			p.PFork = 45 // fork heavy
 		case 2:
@@ -82,6 +82,12 @@ func famHist(out string) {
 			p.Steps, p.PBadTx, p.PCorrupt, p.Scenario = 6, 0, 0, "deepfork"
 		case 5:
 			p.PBadTx, p.PCorrupt, p.Scenario = 0, 5, "bigblock"
+		case 6:
+			p.Steps, p.PBadTx, p.PCorrupt, p.PFork, p.PReorg, p.Scenario = 20, 0, 0, 5, 5, "undokinds"
+		case 7:
+			p.Steps, p.PBadTx, p.PCorrupt, p.Scenario = 8, 0, 0, "shortheavy"
+		case 8:
+			p.Steps, p.PBadTx, p.PCorrupt, p.Scenario = 14, 0, 0, "corruptsweep"
 		}
 		h := w.genHistory(p)
 		class := fmt.Sprintf("hist/fork=%d/bad=%d", p.PFork, p.PBadTx)
